@@ -53,5 +53,21 @@ pub fn verif_str_get_to<'a>(s: &'a str, n: usize) -> (r: Option<&'a str>)
 //@| ensures r is Some == is_char_boundary(new_line.spec_bytes(), (if n_parents <= new_line.spec_bytes().len() { n_parents as int } else { new_line.spec_bytes().len() as int })),  // @C03:the.marker.columns.of.a.combined.diff.line.are.taken.only.when.they.end.on.a.character.boundary
 //@rewrite <<<new_line.get(..min(n_parents, new_line.len()))>>> => <<<verif_str_get_to(new_line, min(n_parents, new_line.len()))>>>
 
+// paint.rs prepare_raw_line: a line kept with its colours is prepared like any other - tabs expanded, newline, marker columns cut off
+pub mod utils { pub mod tabs { pub use crate::TabCfg; } }
+//@ type src/config.rs Config keep=tab_cfg
+pub mod config { pub use crate::Config; }
+pub mod tabs { pub use crate::expand; }
+/// `ansi::ansi_preserving_slice`: the string from the n-th text byte on, every escape sequence kept; uninterpreted
+pub uninterp spec fn slice_keeping_escapes(s: Seq<char>, start: usize) -> Seq<char>;
+pub mod ansi {
+    use vstd::prelude::*;
+    use crate::*;
+    #[verifier::external_body]
+    pub fn ansi_preserving_slice(s: &str, start: usize) -> (r: String) ensures r@ == slice_keeping_escapes(s@, start) { unimplemented!() }
+}
+//@ fn src/paint.rs prepare_raw_line
+//@| ensures r@ == slice_keeping_escapes(expand_spec(raw_line@, &config.tab_cfg).push('\n'), prefix_length),  // @C01,C08:a.line.kept.with.its.colours.has.its.tabs.expanded.like.every.other.line.then.loses.the.marker.columns.and.nothing.else
+
 } // verus!
 fn main() {}
